@@ -26,9 +26,10 @@ def _staged(*stages):
                 keys = set(replay['input'].keys())
                 if name == 'values' and 'spec' not in keys:
                     continue
-                if name == 'sched' and 'case' not in keys:
+                level = replay['input'].get('level')
+                if name == 'sched' and 'case' not in keys and level != 'falsy':
                     continue
-                if name == 'histories' and 'history' not in keys:
+                if name == 'histories' and 'history' not in keys and level != 'unreadable-entry':
                     continue
             before = dict(report.coverage)
             fn(prop, report, tier, seed, replay)
